@@ -69,7 +69,7 @@ func memLoop(sub Subject, sc *memScenario, absent [][]byte, i0, n int) {
 				_, v, _ := sub.Minimum()
 				sink += v
 			case 5:
-				if sc.kind.HasRange() {
+				if sc.kind.HasRange() || sc.kind.Family() == "collation" {
 					consume(sub.Range(k, keys[(i+3)%nk]), 1<<30)
 				} else {
 					_, v, _ := sub.Maximum()
@@ -97,7 +97,7 @@ func memLoop(sub Subject, sc *memScenario, absent [][]byte, i0, n int) {
 				_, v, _ := sub.Maximum()
 				sink += v
 			case 7:
-				if sc.kind.HasRange() {
+				if sc.kind.HasRange() || sc.kind.Family() == "collation" {
 					consume(sub.Range(k, keys[(i+7)%nk]), 8)
 				} else {
 					consume(sub.All(), 8)
